@@ -241,6 +241,22 @@ def admin_variant(rec, path, rng, fail, cnt):
             fail('SensRequestOK', 'shape_after_administration', dict(ctx, got=list(sens.shape), expected=list(exp_sens.shape)))
         elif not interp.close(sens, exp_sens, rtol=1e-6, atol=1e-7):
             fail('Solution', 'sensitivities_after_administration', dict(ctx, got=sens.tolist(), expected=exp_sens.tolist()))
+    # ---- a RENAMED parameter is requested by its new name: the same subset, the same columns
+    with warnings.catch_warnings():
+        warnings.simplefilter('error', RuntimeWarning)
+        old_name = pub[subset[0] - 1]
+        model.set_parameter_names({old_name: 'renamed.parameter'})
+        req_r = ['renamed.parameter'] + [pub[q - 1] for q in subset[1:]]
+        model.enable_sensitivities(True, req_r)
+        out_r, sens_r = model.simulate(values.copy(), times.copy())
+        model.set_parameter_names({'renamed.parameter': old_name})
+    cnt['evaluations'] = cnt.get('evaluations', 0) + 1
+    exp_out_r, exp_sens_r = sbmlgen.chain_reference_admin(ns, nc, values, times, rec['outs'], subset, target)
+    sens_r = np.asarray(sens_r, dtype=float)
+    if sens_r.shape != exp_sens_r.shape:
+        fail('SensRequestOK', 'shape_for_a_renamed_parameter', dict(got=list(sens_r.shape), expected=list(exp_sens_r.shape)))
+    elif not interp.close(sens_r, exp_sens_r, rtol=1e-6, atol=1e-7):
+        fail('Solution', 'sensitivities_for_a_renamed_parameter', dict(got=sens_r.tolist(), expected=exp_sens_r.tolist()))
     # ---- the dosed system: a regimen is set, sensitivities are requested and then requested AGAIN for another subset while
     # they are on (every request builds a new solver): what is solved is the system WITH the doses the model reports
     with warnings.catch_warnings():
